@@ -179,6 +179,9 @@ class ResolveUnknown:
 			return returns_raw.attrs[index]
 		else:
 			# 期待値: (lambda a, b: ...)(a_value, b_value)
+			if not isinstance(parent, defs.Group) or not isinstance(parent.parent, defs.FuncCall):
+				raise Errors.NotSupported(declare, 'Unresolvable lambda parameter type')
+
 			arg = as_a(defs.Group, parent).parent.as_a(defs.FuncCall).arguments[index]
 			arg_raw = reflections.type_of(arg)
 			return var_raw.declare(var_raw.node.as_a(defs.Declable), arg_raw)
